@@ -38,6 +38,50 @@ pub fn lookups_out(sm: &SourceMap, qs: &[Value]) -> Value {
     json!({"k": "ok", "rs": rs})
 }
 
+/// one iterator session: stepping calls on ONE `tokens()` iterator, then a consuming call
+pub fn iterate_out(sm: &SourceMap, steps: &[Value]) -> Value {
+    guard(|| {
+        let cap = sm.get_token_count() as usize + 2;      // a broken adaptor must not loop for ever
+        let mut it = sm.tokens();
+        let mut outs: Vec<Value> = vec![];
+        let one = |t: Option<sourcemap::Token>| match t { Some(t) => json!([tok_json(&t)]), None => json!([]) };
+        for (i, st) in steps.iter().enumerate() {
+            let n = st["n"].as_u64().unwrap() as usize;
+            match st["op"].as_str().unwrap() {
+                "next" => outs.push(one(it.next())),
+                "nth" => outs.push(one(it.nth(n))),
+                "hint" => { let (lo, hi) = it.size_hint(); outs.push(json!([lo, hi.map(|h| h as i64).unwrap_or(-1)])); }
+                fin => {
+                    assert!(i + 1 == steps.len(), "final op in the middle");
+                    outs.push(match fin {
+                        "rest" => json!(it.take(cap).map(|t| tok_json(&t)).collect::<Vec<_>>()),
+                        "skip" => json!(it.skip(n).take(cap).map(|t| tok_json(&t)).collect::<Vec<_>>()),
+                        "step_by" => json!(it.step_by(n).take(cap).map(|t| tok_json(&t)).collect::<Vec<_>>()),
+                        "last" => one(it.take(cap).last()),
+                        "count" => json!([it.take(cap).count()]),
+                        _ => panic!("harness: unknown op"),
+                    });
+                    break;
+                }
+            }
+        }
+        json!({"k": "ok", "outs": outs})
+    })
+}
+/// random session over a map of ntok tokens
+pub fn gen_steps(rng: &mut Rng, ntok: usize) -> Vec<Value> {
+    let mut v = vec![];
+    let arg = |rng: &mut Rng| if rng.chance(1, 6) { rng.below(ntok as u64 + 3) } else { rng.below(4) };
+    for _ in 0..rng.below(6) {
+        v.push(match rng.below(4) { 0 | 1 => json!({"op": "next", "n": 0}), 2 => json!({"op": "nth", "n": arg(rng)}), _ => json!({"op": "hint", "n": 0}) });
+    }
+    v.push(match rng.below(5) {
+        0 => json!({"op": "rest", "n": 0}), 1 => json!({"op": "last", "n": 0}), 2 => json!({"op": "count", "n": 0}),
+        3 => json!({"op": "skip", "n": arg(rng)}), _ => json!({"op": "step_by", "n": 1 + arg(rng)}),
+    });
+    v
+}
+
 fn observe(sm: &SourceMap, qs: &[Value], via: &str, how: &str, em: &mut Emitter) {
     let toks: Vec<Value> = sm.tokens().map(|t| tok_json(&t)).collect();
     em.emit("ordering", json!({"how": how, "via": via}), ordering_out(sm));
@@ -46,6 +90,14 @@ fn observe(sm: &SourceMap, qs: &[Value], via: &str, how: &str, em: &mut Emitter)
 
 pub fn run(case: &Value, em: &mut Emitter) {
     let qs: Vec<Value> = case["qs"].as_array().cloned().unwrap_or_default();
+    if let Some(steps) = case.get("steps").and_then(|s| s.as_array()) {
+        for (how, _m, _doc, d) in realise(case) {
+            let sm = match &d { DecodedMap::Regular(sm) => sm.clone(), DecodedMap::Hermes(h) => (**h).clone(), DecodedMap::Index(i) => match i.flatten() { Ok(f) => f, Err(_) => continue } };
+            let gets: Vec<Value> = (0..sm.get_token_count() as usize).filter_map(|i| sm.get_token(i)).map(|t| tok_json(&t)).collect();
+            em.emit("iterate", json!({"how": how, "toks": gets, "steps": steps}), iterate_out(&sm, steps));
+        }
+        if case["op"] == "iterate" { return; }
+    }
     for (how, _m, _doc, d) in realise(case) {
         match &d {
             DecodedMap::Regular(sm) => {
@@ -130,6 +182,7 @@ fn gen_with(rng: &mut Rng, size: usize, with_range: bool) -> Value {
     };
     let toks: Vec<Value> = m.get("toks").and_then(|t| t.as_array().cloned()).unwrap_or_default();
     m["qs"] = json!(gen_queries(rng, &toks, 30));
+    if rng.chance(1, 2) { m["steps"] = json!(gen_steps(rng, toks.len())); }
     m["producers"] = json!(true);
     m
 }
